@@ -50,6 +50,45 @@ Section Theorems.
     - rewrite D. eexists _, _. split; [reflexivity|]. exact W.
   Qed.
 
+  Theorem http_status srvf srv dm p :
+    results_dumpable body (sv_jsonclass srv) ->
+    exists r, do_post body sigs srvf srv dm p = (200, r) /\ wf_reply r = true.
+  Proof.
+    intros R. destruct (total_wellformed srvf srv dm p R) as (r & log & E & W).
+    exists r. unfold do_post. now rewrite E.
+  Qed.
+
+  (** even on the 500 path the body is a well-formed reply *)
+  Theorem http_body_always_wellformed srvf srv dm p :
+    wf_reply (snd (do_post body sigs srvf srv dm p)) = true.
+  Proof.
+    unfold do_post. destruct (marshaled_dispatch srvf srv dm p) as [[r log]|x] eqn:E.
+    2:{ apply wf_err_obj. }
+    cbn [snd]. revert E. unfold Dispatch.marshaled_dispatch.
+    destruct (loads_m p) as [req|y].
+    2:{ intros H. inversion H; subst. apply wf_err_obj. }
+    unfold Dispatch.unmarshaled_dispatch.
+    destruct (truthy req); cbn [negb].
+    2:{ destruct (dumpable _); intros H; inversion H; subst. apply wf_err_obj. }
+    assert (Hone : forall e,
+      (let '(u, l) := (let '(o, l) := answer_entry srvf srv dm e in
+                       (match o with Some x => UObj x | None => UNone end, l)) in
+       match u with
+       | UNone | UNoMulticall => Ok (REmpty, l)
+       | UObj o => if dumpable o then Ok (ROne o, l) else Raise EType
+       | UList os => if forallb dumpable os then Ok (RMany os, l) else Raise EType
+       end) = Ok (r, log) -> wf_reply r = true).
+    { intros e. destruct (answer_entry srvf srv dm e) as [[o|] l] eqn:E.
+      - destruct (dumpable o); intros H; inversion H; subst. cbn. eapply answer_wf; eauto.
+      - intros H; inversion H; subst. reflexivity. }
+    destruct req; try apply Hone.
+    pose proof (batch_wf body sigs srvf srv dm l) as W.
+    destruct (batch srvf srv dm l) as [os lg]. cbn [fst] in W.
+    destruct os as [|o os].
+    - intros H; inversion H; subst. reflexivity.
+    - destruct (forallb dumpable (o :: os)); intros H; inversion H; subst. exact W.
+  Qed.
+
   (** ** C03 *)
 
   Theorem empty_batch_body srvf srv dm es :
